@@ -582,6 +582,16 @@ def fam_enum(tier, seed):
             add(make_enum("E", bits, [1, 0x1234, 0xFFFF], "false", radix="hex"), tags=["nonexh", "small-discriminants"])
         if bits >= 33:
             add(make_enum("E", bits, [2, 0x12345678, 0xFFFFFFFF], "false", radix="hex"), tags=["nonexh", "small-discriminants"])
+    # many variants (tables / search structures instead of a plain match would show here): every boundary discriminant is a variant
+    add(make_enum("E", 9, list(range(512)), "true"), tags=["exhaustive", "many-variants"])
+    add(make_enum("E", 10, [3 * k + 1 for k in range(300)], "false"), tags=["nonexh", "many-variants"])
+    add(make_enum("E", 16, [0] + [255 * k + 7 for k in range(1, 257)] + [65535], "false", radix="hex"), tags=["nonexh", "many-variants"])
+    add(make_enum("E", 12, list(range(4095, 4095 - 1000, -1)), None), tags=["nonexh", "many-variants", "descending"])
+    add(make_enum("E", 33, [(1 << 33) - 1 - 17 * k for k in range(260)], "false", radix="hex"), tags=["nonexh", "many-variants"])
+    # literal spellings: octal, underscores
+    add(make_enum("E", 6, [0, 0o17, 0o77, 8], "false", radix="oct"), tags=["nonexh", "octal"])
+    add(make_enum("E", 3, list(range(8)), "true", radix="oct"), tags=["exhaustive", "octal"])
+    add(make_enum("E", 20, [1_000, 1_000_000, 0], "false", radix="under"), tags=["nonexh", "underscore"])
     # 2^N - 1 variants (one missing), N <= 8
     for bits in range(1, 9):
         space = 1 << bits
